@@ -56,6 +56,15 @@ Definition is_resolved (e : pexp) : bool := match e with PResolve _ => true | _ 
 Definition site_ok (s : site) : bool := is_resolved (st_arg s).
 Definition sites_ok (l : list site) : bool := forallb site_ok l.
 
+(** The paths method [m] (dynamic branch [b]) hands to the OS on input [i], with the callee of each:
+    used by the correspondence between this model and the observed accesses of the implementation. *)
+Definition site_accesses (g : gx) (cwd root_arg : str) (i : inp) (m b : string) (sites : list site) : list (string * str) :=
+  flat_map (fun s => if (String.eqb (st_method s) m && String.eqb (st_branch s) b)%bool
+                     then match peval g true cwd root_arg i (st_arg s) with Some a => [(st_callee s, a)] | None => [] end
+                     else []) sites.
+Definition has_method (m b : string) (sites : list site) : bool :=
+  existsb (fun s => (String.eqb (st_method s) m && String.eqb (st_branch s) b)%bool) sites.
+
 (** Does an expression read the strings carried by a File handle? *)
 Fixpoint reads_handle (e : pexp) : bool :=
   match e with
